@@ -969,7 +969,14 @@ impl ErasedNode for Node {
         } else if !self.is_necessary() {
             NodeUpdateDelayed::Unnecessary
         } else {
-            match self.value_as_any().is_some() {
+            // Only report a change if the value changed in the stabilisation that is now ending
+            // (stabilise_end has already incremented stabilisation_num). A node can also be
+            // queued because it gained an observer or a subscription.
+            let changed_now = match self.state_opt() {
+                Some(t) => self.changed_at.get().add1() == t.stabilisation_num.get(),
+                None => false,
+            };
+            match self.value_as_any().is_some() && changed_now {
                 true => NodeUpdateDelayed::Changed,
                 false => NodeUpdateDelayed::Necessary,
             }
